@@ -15,6 +15,15 @@ def _const_items_rejected(stderr, hdir):
         m = re.match(r"\s*cc!\((\w+),\s*([-\d]+),\s*([-\d]+),\s*([-\d]+),\s*([-\d]+),\s*([-\d]+),\s*([-\d]+)\);", l)
         if m:
             case_of[m.group(1)] = " ".join(m.groups()[1:]) + " 0"
+    for l in src:
+        m = re.match(r"// huge-item: (\w+) => (\d+) (\d+) (\d+)", l)
+        if m:
+            case_of[m.group(1)] = "8 %s %s %s" % (m.group(2), m.group(3), m.group(4))
+    for i, l in enumerate(src, 1):
+        m = re.match(r"const (C_HUGE_\w+):", l)
+        if m:
+            for j in range(i, i + 6):
+                item_at[j] = m.group(1)
     out, seen = [], set()
     blocks = re.split(r"\n(?=error)", stderr)
     for b in blocks:
